@@ -18,6 +18,14 @@
     * `Recycled`    : the caller's PID now belongs to a process with another start time;
     * `Alive`       : the caller's PID still belongs to the incarnation the object was built for.
 
+  History independence: every result is a function of the world at the time of the call (the
+  tables above) and of the caller object only. Nothing psutil did earlier in the interpreter —
+  `process_iter()` and the `Process` objects it caches in `psutil._pmap`, earlier `children()`
+  calls, `pids()` — may change it, and every `Process` object handed out describes the
+  incarnation that owns its PID when it is examined (`create_time() = look pid`), never a
+  previous owner of that PID. The specification therefore has no argument through which an
+  earlier call could be seen.
+
   The executable functions at the end (`childList`, `descList`, `chainList`) are what the
   driver prints as `spec(x)`; they are saturation / iteration from the definitions, and
   Props/C05.lean proves them equal to the relations above (`descList` under the run-time
